@@ -71,7 +71,10 @@ def events_of(text: str, config_kwargs: dict):
             why.append("html extension")
         if k == "link" and not commonmark:
             href = str(node.attrGet("href") or "")
-            if not href.lower().startswith(EXTERNAL) or (node.attrs and set(node.attrs) - {"href", "title"}):
+            # a destination that is neither a URL nor one of MyST's own schemes is an "unknown" link: under docutils a
+            # reference that carries the destination as its refname (kept as written)
+            special = href.startswith(("#", "inv:", "project:", "path:", "myst:")) or href == ""
+            if (not href.lower().startswith(EXTERNAL) and (special or config_kwargs.get("_front") == "sphinx")) or (node.attrs and set(node.attrs) - {"href", "title"}):
                 why.append("non-external link")
         if node.attrs and k not in ("link", "image", "ordered_list", "th", "td", "heading") and set(node.attrs) - {"style"}:
             why.append(f"attributes on {k}")
@@ -103,7 +106,7 @@ def project(doc, messages: bool = False):
     def attr(n):
         k = n.tagname
         if k == "reference":
-            return _html.unescape(n["refuri"]) if "refuri" in n else "*"
+            return _html.unescape(n["refuri"]) if "refuri" in n else (n["refname"] if "refname" in n else "*")
         if k == "image":
             return f"{n.get('uri', '')}|{n.get('alt', '')}"
         if k == "bullet_list":
